@@ -58,6 +58,23 @@ class MonFile:
         self._pos += len(b)
         return b
 
+    def readinto(self, b):
+        """Same observation point as read(): the bytes the storage delivers (after an injected fault: fewer) land in the caller's
+        buffer and the count is returned, as for a real binary file."""
+        mv = memoryview(b).cast('B')
+        data = self.read(len(mv))
+        mv[:len(data)] = data
+        return len(data)
+
+    def readable(self):
+        return True
+
+    def seekable(self):
+        return True
+
+    def writable(self):
+        return False
+
     def close(self):
         self.closed = True
         self.f.close()
